@@ -408,7 +408,7 @@ impl World for WorldG {
             "C01" => [40, 14, 5, 2, 4, 10, 2, 0, 5, 1, 0, 0, 10],
             "C02" => [30, 1, 24, 8, 12, 3, 0, 0, 2, 0, 0, 0, 12],
             "C03" => [6, 2, 2, 0, 2, 45, 2, 8, 12, 5, 0, 0, 8],
-            "C08" => [8, 6, 2, 0, 1, 34, 30, 0, 12, 2, 0, 0, 10],
+            "C08" => [8, 6, 2, 0, 1, 34, 30, 3, 12, 2, 0, 0, 10],
             "C09" => [3, 1, 1, 0, 1, 42, 1, 0, 34, 8, 0, 0, 6],
             "C13" => [4, 0, 2, 1, 2, 3, 0, 0, 2, 2, 45, 25, 6],
             "C16" => [30, 0, 8, 38, 5, 2, 0, 0, 1, 0, 0, 0, 12],
